@@ -27,6 +27,48 @@ Definition emode (m : mode) : bool :=
   | _ => false
   end.
 
+(* ---- the end of a piece of generated text, against the mode the recogniser is in after it.  A piece that passes
+   [tail_okb] cannot share a token with whatever the grammar accepts next (Proofs/JsWfTail.v: sep_from_tail), so the
+   byte lexer reads the rendered chunks as the chunk lexer reads the chunks. ---- *)
+Definition lastint (ts : list jstoken) : bool := match last ts TStr with TNum x => is_int_text x | _ => false end.
+(* the next token is no identifier, keyword or number *)
+Definition word_free (m : mode) : bool :=
+  match m with
+  | MHave _ | MName _ | MImportClose | MParamsClose | MForClose => true
+  | MSeq (PT (TP _) :: _) _ _ | MSeq (PStr :: _) _ _ => true
+  | _ => false
+  end.
+(* the next token is not '.' *)
+Definition dot_free (m : mode) : bool :=
+  match m with
+  | MHave true | MImportClose | MParamsClose | MForClose => true
+  | MSeq (PT (TP p) :: _) _ _ => negb (punct_eqb p PDot)
+  | MSeq (PStr :: _) _ _ => true
+  | _ => false
+  end.
+Definition dot_mode (m : mode) : bool := match m with MDot | MNameDot _ => true | _ => false end.
+Definition want_mode (m : mode) : bool := match m with MWant _ => true | _ => false end.
+(* the next token is not ++, flagged or not *)
+Definition incr_free (m : mode) : bool :=
+  match m with
+  | MSeq (PT (TP PPlusPlus) :: _) _ _ | MSeq (PT (TNL _) :: _) _ _ => false
+  | _ => true
+  end.
+(* bytes that are a proper prefix of a longer punctuator *)
+Definition open_punct (a : N) : bool := existsb (N.eqb a) [33;37;38;42;43;45;46;47;60;61;62;63;94;124].
+Definition tail_okb (a : N) (li : bool) (m' : mode) : bool :=
+  (negb (is_ident_part a) || (word_free m' && (negb li || dot_free m')))
+  && (negb (open_punct a) || ((a =? 46) && dot_mode m') || ((a =? 63) && want_mode m'))
+  && (negb (is_space a || (a =? 168) || (a =? 169)) || incr_free m').
+Definition text_okb (t : bstr) (ts : list jstoken) (m' : mode) : bool :=
+  match t with [] => true | _ => tail_okb (last t 0) (lastint ts) m' end.
+Fixpoint toks_eqb (a c : list jstoken) : bool :=
+  match a, c with
+  | [], [] => true
+  | x :: a', y :: c' => tok_eqb x y && toks_eqb a' c'
+  | _, _ => false
+  end.
+
 Section Chk.
 Variable fmt : jsfmt.
 Definition is_module : bool := match fmt with ES6 => true | ES5 => false end.
@@ -40,7 +82,7 @@ Fixpoint pieces_run (ps : list (bstr + nat)) (flags : list bool) (m : mode) (s :
       match text_toks t with
       | Some ts =>
           match js_run is_module ts m s with
-          | Some (m', s', []) => if emode m' && forallb eframe s' then pieces_run r flags m' s' else None
+          | Some (m', s', []) => if emode m' && forallb eframe s' && text_okb t ts m' then pieces_run r flags m' s' else None
           | _ => None
           end
       | None => None
@@ -60,7 +102,14 @@ Definition imp_ok (imp : list chunk) : bool :=
       match lex_chunks_from LNormal imp with
       | Some (ts, LNormal) =>
           match js_run is_module ts (MStmt false) [] with
-          | Some (MStmt false, [], [DImport _]) => true
+          | Some (MStmt false, [], [DImport _]) =>
+              (* and the bytes of the line lex to the same tokens, the line ending in ';' or a line feed *)
+              forallb (fun c => match c with CStrLit _ _ => false | _ => true end) imp
+              && match lex_text 0 LNormal (render_chunks (fun _ => true) imp) with
+                 | Some (ts', LNormal) => toks_eqb ts' ts
+                 | _ => false
+                 end
+              && (let a := last (render_chunks (fun _ => true) imp) 0 in (a =? 59) || (a =? 10))
           | _ => false
           end
       | _ => false
@@ -70,13 +119,13 @@ Definition imp_ok (imp : list chunk) : bool :=
 (* a text that is an operand by itself (a directive's function: soy.$$escapeHtml) *)
 Definition operand_text (t : bstr) : bool :=
   match text_toks t with
-  | Some ts => match js_run is_module ts (MWant false) [] with Some (MHave false, [], []) => true | _ => false end
+  | Some ts => match js_run is_module ts (MWant false) [] with Some (MHave false, [], []) => text_okb t ts (MHave false) | _ => false end
   | None => false
   end.
 (* a text that opens a call: soy.$$getMapKeys( *)
 Definition call_open_text (t : bstr) : bool :=
   match text_toks t with
-  | Some ts => match js_run is_module ts (MWant false) [] with Some (MWant true, [KCall], []) => true | _ => false end
+  | Some ts => match js_run is_module ts (MWant false) [] with Some (MWant true, [KCall], []) => text_okb t ts (MWant true) | _ => false end
   | None => false
   end.
 
@@ -100,7 +149,11 @@ Fixpoint expr_chk (fuel : nat) (n : node) : option bool :=
           match float_node_string x with
           | Some s =>
               match lex_num s with
-              | Some ts => match js_run is_module ts (MWant false) [] with Some (MHave i, [], []) => Some i | _ => None end
+              | Some ts =>
+                  match js_run is_module ts (MWant false) [] with
+                  | Some (MHave i, [], []) => if text_okb s ts (MHave i) then Some i else None
+                  | _ => None
+                  end
               | None => None
               end
           | None => None
